@@ -306,6 +306,49 @@ func cmdC16(seed uint64, tier, outdir string) {
 			}
 		}
 	}
+	// an existing classifier is not affected by later edits of the exported normaliser list (a caller configuring a
+	// second classifier): results before and after an in-place edit must be identical
+	{
+		slot := -1
+		for i, nf := range lc.Normalizers {
+			if nf("AbC d") == "abc d" {
+				slot = i
+			}
+		}
+		if slot >= 0 {
+			type res struct {
+				name string
+				conf float64
+			}
+			ask := func(text string) res {
+				if m := l.NearestMatch(text); m != nil {
+					return res{m.Name, m.Confidence}
+				}
+				return res{"<nil>", 0}
+			}
+			var texts []string
+			for _, fi := range perm[:4] {
+				texts = append(texts, strings.ToUpper(string(all[fi].data)), string(all[fi].data))
+			}
+			var before []res
+			for _, t := range texts {
+				before = append(before, ask(t))
+			}
+			saved := lc.Normalizers[slot]
+			lc.Normalizers[slot] = func(s string) string { return s }
+			for i, t := range texts {
+				after := ask(t)
+				cw.printf("normaliser list edited in place after New: %s\n", all[perm[i/2]].name)
+				if after != before[i] {
+					vw.printf("VIOL - %s: NearestMatch %s:%v before, %s:%v after an in-place edit of licenseclassifier.Normalizers (the classifier was built before the edit)\n",
+						all[perm[i/2]].name, before[i].name, before[i].conf, after.name, after.conf)
+				} else {
+					vw.printf("OK 1\n")
+				}
+			}
+			lc.Normalizers[slot] = saved
+		}
+	}
 	// MultipleMatch never returns a match below the threshold
 	damage := func(s string, k int) string {
 		ws := strings.Fields(s)
